@@ -267,15 +267,29 @@ def lock_unlock(vm, shape):
     storage = CaptureStorage()
     wallet = Wallet('w', accounts, storage, {})
     before = [snapshot(a) for a in accounts]
+    # 0. a save without encryption keeps every secret (what is written is what a later start loads)
+    wallet.save()
+    for i, kind in enumerate(shape):
+        d = storage.written[-1]['accounts'][i]
+        if (kind == 's' and d['seed'] != 'seed words of account %d' % i) or (kind in 'sk' and d['private_key'] != 'xprv-token-%d' % i):
+            return 'VIOLATION: a save without encryption does not write the seed / private key of an account'
     wallet.encryption_password = pw
     wallet.preferences[ENCRYPT_ON_DISK] = True
-    # 1. a save with encryption enabled and the password set writes no plaintext secret
+    # 1. a save with encryption enabled and the password set writes no plaintext secret - and loses none
     wallet.save()
     if not storage.written or has_plaintext(storage.written[-1], secrets):
         return 'VIOLATION: a save with encryption enabled wrote a plaintext seed or private key'
-    for a in storage.written[-1]['accounts']:
+    for i, kind in enumerate(shape):
+        a = storage.written[-1]['accounts'][i]
         if not a['encrypted']:
             return 'VIOLATION: an account is saved as unencrypted although encryption is enabled'
+        for field, plain in (('seed', 'seed words of account %d' % i if kind == 's' else None),
+                             ('private_key', 'xprv-token-%d' % i if kind in 'sk' else None)):
+            if plain is None:
+                continue
+            v = a[field]
+            if not isinstance(v, Enc) or v.plaintext != plain or v.password != pw:
+                return 'VIOLATION: an encrypted save does not hold the %s of an account encrypted under the password' % field
     # 2. lock
     wallet.lock()
     for a, kind in zip(accounts, shape):
